@@ -80,6 +80,10 @@ class Spec:
         the generic byte-level reduction of hex fields.  Default: none."""
         return []
 
+    def harness_tags(self):
+        """extra build tags enabling hook-dependent harness files (the hook files must exist in the tree)"""
+        return []
+
     def extra(self, ctx):
         """additional obligations beyond Lean + streams (e.g. fact comparisons); returns list of problems"""
         return []
@@ -411,7 +415,12 @@ class Run:
             for p in spec.extra(ctx):
                 self.problems.append(p)
             # 4. harness + correspondence
-            vh, hlog = core.build_harness(rd)
+            htags = list(spec.harness_tags())
+            vh, hlog = core.build_harness(rd, tags=htags)
+            if not vh and htags:
+                self.problems.append({"what": "harness with hook tags %s does not build against the current tree (hook-dependent correspondence broken)" % htags, "log": hlog[-1500:]})
+                htags = []
+                vh, hlog = core.build_harness(rd)
             if not vh:
                 self.problems.append({"what": "harness does not build against the current tree (correspondence broken)", "log": hlog[-1500:]})
             else:
@@ -429,7 +438,7 @@ class Run:
                         use = vh
                         if st.race:
                             if vh_race is None:
-                                vh_race, rlog = core.build_harness(rd, race=True)
+                                vh_race, rlog = core.build_harness(rd, race=True, tags=htags)
                                 if not vh_race:
                                     self.problems.append({"what": "race build of the harness failed", "log": rlog[-800:]})
                                     continue
